@@ -3,10 +3,13 @@ import ScriggoV.Spec.MapRangeClasses
 
 * which recognised *shapes* of a loop body are acceptable for each hand-assigned class
   (`compatible`): the recogniser is a second, mechanical reading of every map range;
-* the calls of the *helpers* — functions whose loop searches the map by a field of the key and
-  tests a parameter (`depsOf(name, deps)`: first key whose `Name` is `name`), and the functions
-  that pass their parameters on to them. Such a loop is order-independent only when at most one
-  key matches (`Order.foldl_firstMatch` under `UniqueResult`), which is a property of what the
+* the calls of the *helpers* — functions whose loop searches the map by a field of the key, or
+  selects by an order among the entries a filter lets through, and tests a parameter
+  (`depsOf(name, deps)`: among the keys whose `Name` is `name`, the one that comes first in the
+  source — fix 89d8011; before it: the first such key met), and the functions that pass their
+  parameters on to them. A search is order-independent only when at most one key matches
+  (`Order.foldl_firstMatch` under `UniqueResult`), a filtered selection only when the measure is
+  injective on the matching keys (`Order.foldl_argMin`), which is a property of what the
   *caller* passes: every call site is listed here with the reason, and `Props/C30.lean` proves
   this list equal to the regenerated one. A new call site is an undischarged obligation.
 
@@ -28,14 +31,16 @@ def compatible : Class → String → Bool
   | .disjointUnion, s => s == "indexedStore"
   | .orderSensitiveEmission, _ => false
 
-/-- why a call of a helper passes data on which the by-name search has at most one match -/
+/-- why a call of a helper passes data on which the by-name selection has one answer -/
 inductive Why where
   /-- the name is that of a *use* met while walking the dependencies (the declaration a path
   starts from is looked up by identifier first, fix C30-blank-decl-deps): a use is never the blank
   identifier, and the non-blank global names of a package that type-checks are distinct. For a
-  package that declares a name twice (not valid Go, reported only later) they are not, and the
-  loop that is reported changes from build to build: known finding `dup-name-loop-report`
-  (fixes/C30-dup-name-loop-report.NOT-APPLIED.md) -/
+  package that declares a name twice (not valid Go, reported only later) they are not; `depsOf`
+  then takes the declaration with the smallest start offset (fix 89d8011,
+  fixes/C30-dup-name-loop-report.md — before it the loop that was reported changed from build to
+  build), and the keys of the map are identifiers of one source file: different keys, different
+  offsets -/
   | nameOfAUse
   /-- the caller passes its own parameters on: the obligation is its callers' (they are in the
   list too) -/
